@@ -155,7 +155,7 @@ def run_tlc(module, cfg_text, workers=1, timeout=600, simulate=None, depth=None,
                 l for l in r.lines if not l.startswith('"'))[-3000:]))
         for pat in ("Invariant .* is violated", "Deadlock reached", "Temporal properties were violated",
                     "Action property .* is violated", "is violated", "Assumption .* is false",
-                    "The postcondition .* is violated"):
+                    "Postcondition \\S+ .*is false"):
             m = re.search(pat, txt)
             if m:
                 bad = m.group(0)
